@@ -41,6 +41,15 @@ print("RESULT " + json.dumps({
 EXCLUDE = ["ai.onnx.preview.training/1"]      # the example of opgen/__main__.py's docstring; the repository ships no class for it
 
 
+def excluded_keys():
+    """EXCLUDE as (domain, version) pairs, parsed like opgen's parse_opsetid."""
+    out = []
+    for x in EXCLUDE:
+        i = x.rfind("/")
+        out.append(("" if i < 0 else x[:i], int(x[i + 1:])))
+    return out
+
+
 def main_constants(repo):
     """module_base_names and MIN_REQUIRED_ONNX_OPSET_VERSION as opgen/__main__.py defines them (ast, fail-closed)."""
     tree = ast.parse(open(os.path.join(repo, "opgen", "__main__.py"), encoding="utf-8").read())
